@@ -90,6 +90,12 @@ theorem mapping_eq (O : Options) (h0 : O.overwrites = []) : ∀ (t : Ty) (name p
     case str =>
       simp only [Spec.stringField, primDT, strDT_view, view_dict, Bool.or_false]
       split <;> simp [*]
+    case strRef =>
+      simp only [Spec.stringField, primDT, strDT_view, view_dict, Bool.or_false]
+      split <;> simp [*]
+    case cowStr =>
+      simp only [Spec.stringField, primDT, strDT_view, view_dict, Bool.or_false]
+      split <;> simp [*]
     case int t => cases t <;> simp [primDT, intDT, intDataType]
     all_goals simp [primDT]
   | .unit, name, path, nl, f, dt, nb, md, h, hm => by
